@@ -30,8 +30,15 @@ def main():
   err = None
   try:
     mod = importlib.import_module("vmon.monitors." + prop.lower())
-    if spec.get("replay") is not None:
-      mod.replay(spec["replay"], rec)
+    rp = spec.get("replay")
+    if isinstance(rp, dict) and "traceback" in rp and "spec" in rp:
+      # witness of an exception that escaped a whole shard: re-run that shard
+      sub = dict(rp["spec"])
+      sub.pop("replay", None)
+      rec.deadline = time.time() + float(sub.get("budget_s", 1e9))
+      mod.run(sub, rec)
+    elif rp is not None:
+      mod.replay(rp, rec)
     else:
       mod.run(spec, rec)
   except BaseException as e:  # pylint: disable=broad-except
